@@ -272,6 +272,15 @@ func extraC02Reader(c *Ctx, r *Report) {
 				if d == 0 {
 					return false
 				}
+				resIdx := 0
+				if ex, isEx := v.(*ssa.Extract); isEx {
+					// … or hands it back beside an ok flag (`result, usable := awaitPendingRead(readCh, state)`)
+					if call, isCall := ex.Tuple.(*ssa.Call); isCall {
+						if h := call.Call.StaticCallee(); h != nil && h.Blocks != nil && c.inRepo(h) {
+							v, resIdx = call, ex.Index
+						}
+					}
+				}
 				switch x := v.(type) {
 				case *ssa.Call:
 					// a helper that waits for the reader on the caller's behalf: it is handed the channel and returns what
@@ -297,8 +306,14 @@ func extraC02Reader(c *Ctx, r *Report) {
 					}
 					okAll, some := true, false
 					for _, ret := range returnsOf(h) {
-						rv := retResult(ret, 0)
+						if resIdx >= len(ret.Results) {
+							return false
+						}
+						rv := retResult(ret, resIdx)
 						if isNilConst(rv) {
+							continue
+						}
+						if k, isK := rv.(*ssa.Const); isK && k.Value == nil { // the zero value: nothing received
 							continue
 						}
 						some = true
